@@ -205,7 +205,7 @@ pub fn campaigns(ctx: &Ctx) -> Stats {
         let fan = crate::scale::fan_in_cases("c10", t == Tier::Thorough);
         st.merge(ctx.run_indexed("one-node-consumed-up-to-70001-times", fan.len() as u64, None, |i| Some(fan[i as usize].clone())));
     }
-    let (len, total) = t.pick((20usize, 40000u64), (70, 300000));
+    let (len, total) = t.pick((20usize, 100000u64), (70, 300000));
     for (name, exact) in [("exact-histories", true), ("mixed-histories", false)] {
         let cfg = cfg_for(t, exact);
         st.merge(ctx.run_prop(name, total / 2, move || recipe_strategy(len), move |r| Some(Case10 { hist: elaborate(&cfg, r) })));
